@@ -1,16 +1,24 @@
 """C18 - sweeps, blocks and control-flow graphs partition the code.
 
  M  specs/Cfg.tla (+ CfgOps.tla): instruction streams, the block partition of a sweep, and a branch-by-
-    branch transcription of graph.add_vertex/__cut_add_vertex over MemoryZone.addtomap; TLC checks
-    Disjoint / Covers / FallThrough / NoRaise for every stream, every domain block, every insertion
-    order (small scope). The model of the code as it is today (deviations SplitSelfLoop, HistCopySlice)
-    and three seeded faults must be rejected.
- G  every behaviour of the generator configs is replayed on a real cfg.graph whose blocks come from
-    lsweep.getblock over raw buffers of real ISAs; the log of every step (support._map, edges) is
-    validated by TLC (specs/CfgTrace.tla, graph traces).
- T  linear sweeps (sequence / iterblocks / getblock, slices, cuts) of every ISA over random, encoded and
-    sample-derived buffers from all start addresses, and long random insertion histories, recorded and
-    validated by specs/CfgTrace.tla.
+    branch transcription of graph.add_vertex/__cut_add_vertex (with grandalf's add_edge re-inserting its end
+    points) over MemoryZone.addtomap; TLC checks Disjoint / Covers / FallThrough / NoRaise / NoOverlay and the
+    lemma BlocksAreMaximalRuns for every stream, every domain block, every insertion order (small scope) of
+    the INTENDED design (Dev = {}). The models of the code as it is today (six named deviations, five
+    configurations) and three seeded faults must be rejected.
+ P  a handful of canonical probe histories is run on the tree under test; TLC (CfgTrace, kind "probe") picks
+    the set of named deviations that reproduces them: that is "today's code" for the attribution below.
+ G  every behaviour of the generator configs (exhaustive small, -simulate larger, and - drift only - all
+    contiguous runs) is replayed on a real cfg.graph whose blocks come from lsweep.getblock over raw buffers
+    of real ISAs; the log of every step (support._map, edges) is validated by TLC (specs/CfgTrace.tla).
+ T  linear sweeps (sequence / iterblocks / getblock, slices, cuts) of every importable ISA over random,
+    encoded and sample-derived buffers from all start addresses, and long random insertion histories, are
+    recorded and validated by the same trace specification.
+ A failed clause is a KNOWN-FINDING only when the observation is exactly what the model with the detected
+ deviations predicts and a deviation that explains the clause was at work; anything else is a VIOLATION.
+
+ Development aids (never used by the registered commands): C18_SKIP_MODEL=1 skips M (it does not touch
+ amoco), C18_FAST=1 runs a subset of the traces of the full run (same seeds, fewer ISAs / generators).
 """
 import json
 import multiprocessing as mp
@@ -133,8 +141,8 @@ def generators(quick):
                 ("CfgGen_var_quick.cfg", "var", c18.G_VAR, "one", None, 2),
                 ("CfgGen_links_quick.cfg", "links", allh, "one", None, 2),
                 ("CfgGen_wide_quick.cfg", "wide", c18.G_VAR[:3] + c18.G_FIXED[:2], "one", None, 4),
-                ("CfgSim.cfg", "sim", c18.G_VAR, "one", "num=40", 1),
-                ("CfgSimD.cfg", "simd", c18.G_DELAY, "one", "num=40", 1)]
+                ("CfgSim.cfg", "sim", c18.G_VAR, "one", "num=15", 1),
+                ("CfgSimD.cfg", "simd", c18.G_DELAY, "one", "num=15", 1)]
     return [("CfgGen_unit.cfg", "unit", c18.G_DELAY + c18.G_FIXED + c18.G_VAR[:2], "one", None, 1),
             ("CfgGen_var.cfg", "var", c18.G_VAR, "one", None, 1),
             ("CfgGen_links.cfg", "links", allh, "one", None, 1),
